@@ -20,13 +20,13 @@ MANIFEST = dict(
     category='model_checking', design_ref='DESIGN.md §3 C05, §2.5',
     engine='E1-history',
     technique='explicit-state model checking of add/remove/add-ILI histories on the real SQLite database: exact-key depth-bounded search plus BFS closure to a fixpoint under a rowid-quotient key, reference model stepped in lock-step',
-    text='All histories over 18 events (add of base A:1, second version A:2 with identical ids, extension X:1, extension-of-extension Y:1, dependent B:1, unrelated C:1, a two-lexicon bundle, a file holding the base and its extension, an ILI file; remove of a:1, a:2, a:*, x:1, y:1, b:1, c:1, *, *:1) are explored on the real database by BFS: depth-bounded with the exact table dump as key, and to a fixpoint under an abstraction key (quick: installed lexicons in rowid order + ILI-index flag; thorough: additionally the value sets of the shared lookup tables; plus a capped run under the rowid-quotient key). Every transition is one real wn.add/wn.remove call compared with the reference model (installed set, extension closure); in every reached state the canonical table dump of all owned tables and the per-lexicon public-API transcripts must equal those of a fresh database built from just the installed lexicons, PRAGMA foreign_key_check / integrity_check and an ownership audit must be clean, and dependency links must match what is installed. The universe is explored twice: without annotations of external lemmas/forms (zero tolerance) and with them (only the recorded residue finding is accepted). A third, smaller universe UT (13 events: base in two versions, two versions x:1 / x:2 of one extension and a fork z:1 of it, a file holding two of them; all three give the form they add to the same base entry the same id, with their own tags and pronunciations) is closed the same way with zero tolerance; there each extension is observed together with its base.',
+    text='All histories over 19 events (add of base A:1, second version A:2 with identical ids, extension X:1, extension-of-extension Y:1, dependent B:1, unrelated C:1, a two-lexicon bundle, a file holding the base and its extension, a file holding the extension and the extension of it, an ILI file; remove of a:1, a:2, a:*, x:1, y:1, b:1, c:1, *, *:1) are explored on the real database by BFS: depth-bounded with the exact table dump as key, and to a fixpoint under an abstraction key (quick: installed lexicons in rowid order + ILI-index flag; thorough: additionally the value sets of the shared lookup tables; plus a capped run under the rowid-quotient key). Every transition is one real wn.add/wn.remove call compared with the reference model (installed set, extension closure); in every reached state the canonical table dump of all owned tables and the per-lexicon public-API transcripts must equal those of a fresh database built from just the installed lexicons, PRAGMA foreign_key_check / integrity_check and an ownership audit must be clean, and dependency links must match what is installed. The universe is explored twice: without annotations of external lemmas/forms (zero tolerance) and with them (only the recorded residue finding is accepted). A third, smaller universe UT (13 events: base in two versions, two versions x:1 / x:2 of one extension and a fork z:1 of it, a file holding two of them; all three give the form they add to the same base entry the same id, with their own tags and pronunciations) is closed the same way with zero tolerance; there each extension is observed together with its base.',
     note='Key soundness argument in DESIGN §2.5 / §9.2 (all library SQL is invariant under order-preserving rowid renaming on clean states; cleanliness is itself an invariant checked in every state). The shared ILI / relation-type / lexfile inventories are excluded from the comparison as the property says.',
 )
 
 K_RESIDUE = 'remove:annotations-on-external-forms-survive'
 
-ADDS = ['A1', 'A2', 'X1', 'Y1', 'B1', 'C1', 'BC', 'AX', 'I']
+ADDS = ['A1', 'A2', 'X1', 'Y1', 'B1', 'C1', 'BC', 'AX', 'XY', 'I']
 REMOVES = ['a:1', 'a:2', 'a:*', 'x:1', 'y:1', 'b:1', 'c:1', '*', '*:1']
 ORDER = ['a:1', 'a:2', 'x:1', 'y:1', 'b:1', 'c:1']      # canonical fresh-build order
 EXT = {'x:1': 'a:1', 'y:1': 'x:1'}
